@@ -19,9 +19,12 @@ EXPLANATION = (
     "the array lengths the writers of Transaction, TransactionOutput (no datum / script state) and Value declare; (SIZE-vkey) the fake vkey "
     "witness size constant equals head(2) + bytes(32) + bytes(64) computed from the Vkeywitness writer's shape and the Ed25519 size constants; "
     "(TARGET) every TransactionOutput the batcher builds takes its address from the target address handed to create_send_all (origin slice: "
-    "the categorizer's / proposal's address field, filled from the parameter), never from a UTxO or a constructor. NOT decided: that every "
-    "UTxO is spent exactly once, balance of each transaction, the min-ADA and fee fixed points, and the size model above the level of heads "
-    "and arities (sums over assets) - runtime quantities."
+    "the categorizer's / proposal's address field, filled from the parameter), never from a UTxO or a constructor; (CLASSIFY-all, UNIQUE-input) every supplied UTxO is registered in a work list the batcher drains, "
+    "and entries are unique by input - necessary conditions of 'spent exactly once'; (CANCEL) no size accumulator is decreased and "
+    "increased by the same function of the same value; (BOOT-size-each) every Byron address prices its own bootstrap witness; (FEE-once, "
+    "PESS-full, BATCH-gate) three structural conditions of the fee fixed point and the final funds test, each of which was the cause of "
+    "a run-time confirmed imbalance. NOT decided: exact-once coverage as an observed multiset, the balance equation and the min-ADA / fee "
+    "fixed points as numbers, the size model's sums over assets - runtime quantities."
 )
 
 HEAD_TABLE = [(0, 23, ("const", 1)), (24, 255, ("const", 2)), (256, 65535, ("const", 3)), (65536, (1 << 32) - 1, ("const", 5)), (1 << 32, (1 << 64) - 1, ("const", 9))]
